@@ -93,16 +93,26 @@ theorem processBlock_step (cfg : Config) (hnew : cfg.matches .new = true) (hundo
           ∃ l, (processBlock cfg s b none).1.lastSent = some l ∧ l.ref = b.ref)) ∧
       (∀ (U : Id → Option Blk) (F : List Id), UOK U → Inv2 U F s.db → U b.id = some b →
         ∃ F', Inv2 U F' (processBlock cfg s b none).1.db) ∧
-      DbShape cfg s b (processBlock cfg s b none).1 := by
+      DbShape cfg s b (processBlock cfg s b none).1 ∧
+      (s.db.find b.id = none → ¬ (b.num < s.db.libRef.num ∧ s.lastSent.isSome = true) → triggers cfg s b = true →
+        (∃ c cs, computeLongestChain cfg { s with db := appendBlk s.db b } b = some (c :: cs)) →
+        ∃ l, (processBlock cfg s b none).1.lastSent = some l ∧ l.ref = b.ref) := by
   unfold processBlock
   rcases plan_cases cfg s b hni hI.libNe with ⟨⟨r, hr⟩, hwhy⟩ | ⟨hex, _, hnotdrop, u, rd, j, hsw, hpl⟩
   · rw [hr]
-    refine ⟨P, rfl, hI, Or.inl ⟨rfl, rfl⟩, fun U F _ hJ _ => ⟨F, hJ⟩, Or.inl ⟨rfl, ?_⟩⟩
-    rcases hwhy with h | h | h | h
-    · exact Or.inl h
-    · exact Or.inr (Or.inl h)
-    · exact absurd h (switchSegments_ne_none cfg s b _)
-    · exact Or.inr (Or.inr h)
+    refine ⟨P, rfl, hI, Or.inl ⟨rfl, rfl⟩, fun U F _ hJ _ => ⟨F, hJ⟩, Or.inl ⟨rfl, ?_⟩, ?_⟩
+    · rcases hwhy with h | h | h | h
+      · exact Or.inl h
+      · exact Or.inr (Or.inl h)
+      · exact absurd h (switchSegments_ne_none cfg s b _)
+      · exact Or.inr (Or.inr h)
+    · intro hfresh hnb _ _
+      rcases hwhy with h | h | h | h
+      · exact absurd h hb.2.2
+      · exact absurd h hnb
+      · exact absurd h (switchSegments_ne_none cfg s b _)
+      · have := ((addLink_exists_iff s.db b).mp h).2.2
+        exact absurd (by simp [DB.link, hfresh]) this
   obtain ⟨hf, hadd⟩ := fresh_of_addLink s.db b hI.wf hb hex
   have hJ1 : ∀ (U : Id → Option Blk) (F : List Id), Inv2 U F s.db → U b.id = some b → Inv2 U F (appendBlk s.db b) := by
     intro U F hJ hbU
@@ -121,15 +131,17 @@ theorem processBlock_step (cfg : Config) (hnew : cfg.matches .new = true) (hundo
   cases hc : computeLongestChain cfg { s with db := appendBlk s.db b } b with
   | none =>
     refine ⟨P, rfl, inv_afterLink s P b none hI hb hB hf ?_, Or.inl ⟨rfl, rfl⟩, fun U F _ hJ hbU => ⟨F, hJ1 U F hJ hbU⟩,
-      Or.inr ⟨hf, _, SameBlks.refl _, Or.inl rfl⟩⟩
-    intro c cs h; cases h
+      Or.inr ⟨hf, _, SameBlks.refl _, Or.inl rfl⟩, ?_⟩
+    · intro c cs h; cases h
+    · rintro _ _ _ ⟨c, cs, h⟩; cases h
   | some lc =>
     obtain ⟨hp, hn, hfa, htop, hlast⟩ := compute_chain_path cfg s P b hI hb hB hf lc hc
     cases lc with
     | nil =>
       refine ⟨P, rfl, inv_afterLink s P b (some []) hI hb hB hf ?_, Or.inl ⟨rfl, rfl⟩, fun U F _ hJ hbU => ⟨F, hJ1 U F hJ hbU⟩,
-        Or.inr ⟨hf, _, SameBlks.refl _, Or.inl rfl⟩⟩
-      intro c cs h; cases h
+        Or.inr ⟨hf, _, SameBlks.refl _, Or.inl rfl⟩, ?_⟩
+      · intro c cs h; cases h
+      · rintro _ _ _ ⟨c, cs, h⟩; cases h
     | cons c0 cs0 =>
       have hcok : CacheOK { s with db := appendBlk s.db b, cache := some (c0 :: cs0) } := by
         intro c cs h _
@@ -139,7 +151,7 @@ theorem processBlock_step (cfg : Config) (hnew : cfg.matches .new = true) (hundo
       have hI1 := inv_afterLink s P b (some (c0 :: cs0)) hI hb hB hf hcok
       cases htr : triggers cfg s b with
       | false => exact ⟨P, rfl, hI1, Or.inl ⟨rfl, rfl⟩, fun U F _ hJ hbU => ⟨F, hJ1 U F hJ hbU⟩,
-          Or.inr ⟨hf, _, SameBlks.refl _, Or.inl rfl⟩⟩
+          Or.inr ⟨hf, _, SameBlks.refl _, Or.inl rfl⟩, fun _ _ h _ => by cases h⟩
       | true =>
         simp only [if_true]
         rw [htr] at hsw
@@ -219,7 +231,10 @@ theorem processBlock_step (cfg : Config) (hnew : cfg.matches .new = true) (hundo
             rw [hfb]; exact hL e1 hfe
         obtain ⟨haf, han, t, Q', hevs, hrun, hI3, hdbcase⟩ :=
           advance_inv cfg hirr a hef hen b _ hI2 eb.blk hlastSent hcr hlibok
-        refine ⟨Q', ?_, hI3, Or.inr ⟨hf, (by first | rfl | trivial), eb.blk, ?_, heblast.1⟩, ?_, ?_⟩
+        have hmoved : (advanceAcc cfg a b none).st.lastSent = some eb.blk := by
+          rw [advanceAcc_lastSent]; exact hlastSent
+        refine ⟨Q', ?_, hI3, Or.inr ⟨hf, (by first | rfl | trivial), eb.blk, ?_, heblast.1⟩, ?_, ?_,
+          fun _ _ _ _ => ⟨eb.blk, hmoved, heblast.1⟩⟩
         · show (⟨s.db.libRef.id, P⟩ : CS).run (finish (advanceAcc cfg a b none)).2.1 = _
           have : (finish (advanceAcc cfg a b none)).2.1 = a.evs ++ t := hevs
           rw [this, run_append, ← hs3lib, herun]
